@@ -1,6 +1,8 @@
 """C14 — traversals and set operations stream with memory independent of FST size (structural part)."""
 from callgraph import CallGraph
 from rules.common import adt_base, arg_loc
+from sym import fmt, walk
+from rules.streams import is_call
 from rules import growth
 import stdmodel as SM
 
@@ -117,6 +119,58 @@ def run(ctx):
             # derived / manual Clone of user-visible types is reached only through the with-state stream's `state.clone()` on user automaton states
             continue
         ctx.violation(R2, 'alloc:%s@%s' % (x, g.path), 'a stream step allocates afresh (%s): per-key allocation that is not one of the bounded buffers' % x, fn=g, at=t.get('span'))
+    # sized allocations of the reader / stream side: the requested capacity is a constant (or capped by one, or the number of streams)
+    R3 = ctx.rule('R14.3', 'sized allocations on the reader / stream side request a constant capacity (or min(const, _), or one per input stream)', floor=2)
+    from paths import explore
+    from rules.common import path_calls
+
+    def bounded(e):
+        """True: bounded by a constant / the number of streams; False: grows with the data; None: not recognised"""
+        while e[0] == 'cast':
+            e = e[1]
+        if e[0] == 'const':
+            return True
+        if e[0] == 'citem':
+            return True
+        if e[0] == 'call' and isinstance(e[1], str):
+            m = e[1].rsplit('::', 1)[-1]
+            if m == 'min' and ('cmp' in e[1] or 'Ord' in e[1]):
+                rs = [bounded(a) for a in e[2]]
+                return True if any(r is True for r in rs) else (False if all(r is False for r in rs) else None)
+            if m == 'max' and ('cmp' in e[1] or 'Ord' in e[1]):
+                rs = [bounded(a) for a in e[2]]
+                return False if any(r is False for r in rs) else (True if all(r is True for r in rs) else None)
+            if m in ('size', 'len') and e[2]:
+                # the length of the FST's bytes / of a key or data slice grows with the data; the number of input streams does not
+                a = e[2][0]
+                tys = ' '.join(str(x) for x in walk(a) if isinstance(x, str))
+                if m == 'size' or any(x[0] == 'field' and x[2] in ('data', 'fst') for x in walk(a)) or any(is_call(x, 'as_bytes') or is_call(x, 'as_ref') for x in walk(a)):
+                    return False
+                if any(x[0] == 'field' and x[2] in ('streams', 'rdrs') for x in walk(a)):
+                    return True
+                return None
+        if e[0] == 'bin' and e[1] in ('Add', 'Mul', 'Sub'):
+            rs = [bounded(e[2]), bounded(e[3])]
+            return False if any(r is False for r in rs) else (True if all(r is True for r in rs) else None)
+        return None
+    SIZED = ('Vec::<T>::with_capacity', 'Vec::<T, A>::reserve', 'Vec::<T, A>::reserve_exact', 'String::with_capacity', 'BinaryHeap::<T>::with_capacity', 'vec::from_elem')
+    for g in lib.fn_list:
+        if g.from_expansion or g.path.startswith(('raw::build::', 'raw::registry', '<raw::build::')) or g.kind == 'Closure' and g.path.startswith('raw::build::'):
+            continue
+        if not any((g.callee(t) or '').endswith(SIZED) for _, t in g.calls()):
+            continue
+        done = set()
+        for p in explore(g, max_visits=1, havoc=True, limit=300):
+            for (k, bid, callee, args, t) in path_calls(p, expand=False):
+                if not isinstance(callee, str) or not callee.endswith(SIZED) or bid in done:
+                    continue
+                done.add(bid)
+                n = args[-1]
+                r = bounded(n)
+                if r is None:
+                    ctx.undecided(R3, 'cap:%s' % g.path, 'a buffer is allocated with a capacity that is neither a constant nor a recognised bounded quantity: %s' % fmt(n)[:60], fn=g, at=t.get('span'))
+                else:
+                    ctx.check(R3, r, 'cap:%s' % g.path, 'a buffer is allocated with a capacity that grows with the data (%s): opening a stream on a large FST then costs memory proportional to the FST, not to the key length' % fmt(n)[:80], fn=g, at=t.get('span'))
     inv = growth.type_inventory(lib, STREAM_ADTS)
     extra = {k: n for k, n in inv.items() if n > INV.get(k, 0)}
     for (a, ty), n in sorted(extra.items()):
